@@ -394,6 +394,9 @@ def gen_cases(tier, seed):
     for op in H_OPS:
         cases.append(dict(kind='history', first=op, depth=depth))
     # --- exhaustive small matrices
+    for n in (2, 3, 4):
+        for k in (0, 1):
+            cases.append(dict(kind='inplace', n=n, k=k))
     cases.append(dict(kind='int', n=1, vals=[-1, 0, 1, 2], prefix=[]))
     for a in [-1, 0, 1, 2]:
         cases.append(dict(kind='int', n=2, vals=[-1, 0, 1, 2], prefix=[a]))
@@ -467,12 +470,56 @@ def run_case(case, ctx):
     elif k == 'colloc':
         M = collocation_matrix(case)
         judge_matrix(M, 'collocation', ctx, dict(case, M=M), only=case.get('only'))
+    elif k == 'inplace':
+        _inplace_reuse(case, ctx)
     elif k == 'history':
         explore_histories(case, ctx)
     elif k == 'helpers':
         HELPERS[case['part']](case, ctx)
     else:
         raise ValueError(k)
+
+
+def _inplace_reuse(case, ctx):
+    """the SAME matrix object is passed twice with one entry changed in place in between: the second answer must be
+    the answer for the matrix as it is now (no memo keyed by object identity / first contents)"""
+    la = _lib()
+    n = case['n']
+    base = diagdom(n, case['k'])
+    b = [[float(i + 1), float(2 - i)] for i in range(n)]
+    for routine in ('lu_solve', 'lu_factor', 'lu_decomposition', 'matrix_inverse', 'matrix_determinant'):
+        for i in range(n):
+            for j in range(n):
+                if 'only' in case and case['only'] != [routine, i, j]:
+                    continue
+                pristine()
+                M = [list(r) for r in base]
+                feats = dict(n=n, family='diagdom', routine=routine, edit=[i, j], history='inplace_edit')
+                rc = dict(case, only=[routine, i, j])
+
+                def call():
+                    if routine in ('lu_solve', 'lu_factor'):
+                        return getattr(la, routine)(M, [list(r) for r in b])
+                    return getattr(la, routine)(M)
+                try:
+                    call()
+                    M[i][j] += (1.0 if i == j else 0.25)       # stays strictly diagonally dominant
+                    res = call()
+                except Exception as e:
+                    ctx.check('C16.history.inplace_edit_seen', False, rc, feats, 'a result', repr(e))
+                    continue
+                A = [[F(x) for x in r] for r in M]
+                if routine in ('lu_solve', 'lu_factor'):
+                    exp = R.solve_exact(A, [[F(x) for x in r] for r in b])
+                elif routine == 'matrix_inverse':
+                    exp = R.solve_exact(A, [[F(1 if r == c else 0) for c in range(n)] for r in range(n)])
+                elif routine == 'matrix_determinant':
+                    exp = R.det_gauss(A)
+                else:
+                    L, U = res
+                    res = R.matmul(L, U)
+                    exp = A
+                ctx.close('C16.history.inplace_edit_seen', res, exp, 1e-9, 1.0, rc, feats)
 
 
 # ----------------------------------------------------------------------------------------
